@@ -97,5 +97,6 @@ func main() {
 		}
 		c.override, c.cur = "", "amd64"
 	}
+	writeParamRecords()
 	os.Exit(c.finish(seed, start, *evid))
 }
